@@ -6,7 +6,8 @@ manager's epistemic_state, exactly like the 'fork' start method) that runs the r
 sends its writes through a pipe.  The explorer then decides WHEN those writes become visible relative to the parent's
 join / is_alive / terminate calls:
 
-  done         the worker finishes before join(timeout) returns
+  done         the worker finishes before the parent reaches its first join (several such workers: every completion order)
+  done-at-join the worker finishes while the parent waits for it in join(timeout)
   late         join(timeout) returns by timeout, the worker finishes before is_alive() is evaluated
   alive-lost   the worker is still alive at is_alive(); terminate() kills it before it wrote anything
   alive-wrote  the worker is still alive at is_alive(); it writes its result just before terminate() takes effect
@@ -17,7 +18,7 @@ import itertools
 import os
 import pickle
 
-CHOICES = ("done", "late", "alive-lost", "alive-wrote")
+CHOICES = ("done", "done-at-join", "late", "alive-lost", "alive-wrote")
 
 
 class Chooser:
@@ -151,6 +152,9 @@ class _Proc:
             self.owner.decide()
             if self.mode == "done":
                 self.state = "finished"      # its writes were delivered when it completed (see SchedMP.decide)
+            elif self.mode == "done-at-join":
+                self._deliver()              # it completes while the parent is waiting for it in join(timeout)
+                self.state = "finished"
             else:
                 self.state = "joined-by-timeout"
         elif self.state == "terminated":
